@@ -27,8 +27,12 @@ enum Val {
     Null,
     Bool(bool),
     Int(i64),
-    /// halves: Flt(h) is h/2
+    /// halves: Flt(h) is h/2 (Flt(0) is +0.0)
     Flt(i64),
+    /// -0.0: `==` to 0.0 and 0, a different B-tree key
+    NZero,
+    /// NaN (written `0.0/0.0`): a key of its own, equal to nothing
+    NaN,
     Str(Vec<u8>),
     Lst(Vec<i64>),
 }
@@ -41,6 +45,8 @@ impl Val {
             Val::Bool(false) => "bf".into(),
             Val::Int(i) => format!("i{}", i),
             Val::Flt(h) => format!("f{}", h),
+            Val::NZero => "z".into(),
+            Val::NaN => "N".into(),
             Val::Str(s) => format!("s{}", s.iter().map(|b| format!("{:02x}", b)).collect::<String>()),
             Val::Lst(l) => format!("l{}", l.iter().map(|i| i.to_string()).collect::<Vec<_>>().join(".")),
         }
@@ -50,6 +56,9 @@ impl Val {
             "n" => Val::Null,
             "bt" => Val::Bool(true),
             "bf" => Val::Bool(false),
+            "z" => Val::NZero,
+            "N" => Val::NaN,
+            "" => return None,
             _ => {
                 let (k, rest) = s.split_at(1);
                 match k {
@@ -90,6 +99,8 @@ impl Val {
                     format!("{}", f)
                 }
             }
+            Val::NZero => "-0.0".into(),
+            Val::NaN => "(0.0 / 0.0)".into(),
             Val::Str(s) => format!("'{}'", String::from_utf8_lossy(s)),
             Val::Lst(l) => format!("[{}]", l.iter().map(|i| i.to_string()).collect::<Vec<_>>().join(", ")),
         }
@@ -101,6 +112,8 @@ impl Val {
             Val::Bool(b) => vec![1, *b as i64],
             Val::Int(i) => vec![2, *i],
             Val::Flt(h) => vec![3, *h],
+            Val::NZero => vec![6],
+            Val::NaN => vec![7],
             Val::Str(s) => std::iter::once(4).chain(s.iter().map(|b| *b as i64)).collect(),
             Val::Lst(l) => std::iter::once(5).chain(l.iter().copied()).collect(),
         }
@@ -112,9 +125,11 @@ fn pv_to_proto(p: &PropertyValue) -> String {
         PropertyValue::Null => "n".into(),
         PropertyValue::Boolean(b) => Val::Bool(*b).proto(),
         PropertyValue::Integer(i) => Val::Int(*i).proto(),
+        PropertyValue::Float(f) if f.is_nan() => "N".into(),
+        PropertyValue::Float(f) if *f == 0.0 && f.is_sign_negative() => "z".into(),
         PropertyValue::Float(f) => {
             let h = f * 2.0;
-            if h.fract() == 0.0 && h.abs() < 1e15 && !(h == 0.0 && f.is_sign_negative()) {
+            if h.fract() == 0.0 && h.abs() < 1e15 {
                 Val::Flt(h as i64).proto()
             } else {
                 format!("X:float:{:016x}", f.to_bits())
@@ -531,6 +546,8 @@ impl Query {
                     Val::Bool(_) => "bool",
                     Val::Int(_) => "int",
                     Val::Flt(_) => "float",
+                    Val::NZero => "negzero",
+                    Val::NaN => "nan",
                     Val::Str(_) => "string",
                     Val::Lst(_) => "list",
                 }
@@ -599,8 +616,14 @@ fn build_store(case: &Case, idx: &str, cp: &str) -> (QueryEngine, GraphStore, Ve
             HOp::Create { h, labels, props } => {
                 let ls: String = labels.iter().map(|l| format!(":{}", LABELS[*l as usize])).collect();
                 let mut ps = vec![format!("h: {}", h)];
+                // -0.0 and NaN are expressions, not literals: written by a SET right after
+                let mut late: Vec<(u8, Val)> = vec![];
                 for (k, v) in props {
-                    ps.push(format!("{}: {}", KEYS[*k as usize], v.cypher()));
+                    if matches!(v, Val::NZero | Val::NaN) {
+                        late.push((*k, v.clone()));
+                    } else {
+                        ps.push(format!("{}: {}", KEYS[*k as usize], v.cypher()));
+                    }
                 }
                 let st = format!("CREATE (n{} {{{}}}) RETURN id(n)", ls, ps.join(", "));
                 if let Some(b) = run(st, &mut s, &mut errs) {
@@ -611,6 +634,9 @@ fn build_store(case: &Case, idx: &str, cp: &str) -> (QueryEngine, GraphStore, Ve
                     match id {
                         Some(i) => {
                             nid.insert(*h, NodeId::new(i));
+                            for (k, v) in late {
+                                run(format!("MATCH (n) WHERE id(n) = {} SET n.{} = {}", i, KEYS[k as usize], v.cypher()), &mut s, &mut errs);
+                            }
                         }
                         None => errs.push(format!("create {}: no id returned", h)),
                     }
@@ -618,7 +644,7 @@ fn build_store(case: &Case, idx: &str, cp: &str) -> (QueryEngine, GraphStore, Ve
             }
             HOp::Set { h, key, v, merge_form } => {
                 if let Some(id) = nid.get(h) {
-                    let st = if *merge_form {
+                    let st = if *merge_form && !matches!(v, Val::NZero | Val::NaN) {
                         format!("MATCH (n) WHERE id(n) = {} SET n += {{{}: {}}}", id.as_u64(), KEYS[*key as usize], v.cypher())
                     } else {
                         format!("MATCH (n) WHERE id(n) = {} SET n.{} = {}", id.as_u64(), KEYS[*key as usize], v.cypher())
@@ -772,7 +798,8 @@ fn eval_case(case: &Case, with_shapes: bool) -> CaseResult {
 fn value_pool() -> Vec<Val> {
     vec![
         Val::Int(0), Val::Int(1), Val::Int(1), Val::Int(2), Val::Int(-1), Val::Int(3),
-        Val::Flt(2), Val::Flt(2), Val::Flt(1), Val::Flt(4), Val::Flt(-2), Val::Flt(5), Val::Flt(0),
+        Val::Flt(2), Val::Flt(2), Val::Flt(1), Val::Flt(4), Val::Flt(-2), Val::Flt(5), Val::Flt(0), Val::Flt(0),
+        Val::NZero, Val::NZero, Val::NaN,
         Val::Str(b"a".to_vec()), Val::Str(b"b".to_vec()), Val::Str(b"".to_vec()), Val::Str(b"true".to_vec()),
         Val::Str(b"TRUE".to_vec()), Val::Str(b"False".to_vec()), Val::Str(b"ab".to_vec()),
         Val::Bool(true), Val::Bool(false),
@@ -874,6 +901,83 @@ fn gen_edge_case(rng: &mut Rng) -> Case {
     queries.push(Query { label: 1, preds: vec![], ret: None, hop: None, form: "plain", raw: None });
     let partial: Vec<(u8, u8)> = ALL_PAIRS.iter().filter(|_| rng.chance(1, 2)).copied().collect();
     Case { ix_mid: rng.usize(ops.len() + 1), cp_mid: Some(cp), ops, queries, partial }
+}
+
+/// Histories that rewrite an indexed key with values that are `==` but not the same B-tree
+/// key (0.0 <-> -0.0, also 0 and re-SETs of the identical value) or the same key but not `==`
+/// (NaN), then move on: another SET, REMOVE, label removal, DELETE and reuse of the id by a
+/// node of another label holding a numeric zero.  Read with `= 0`, `= 0.0`, `>= 0`, `<= 0`,
+/// `< 100` and counts.
+fn gen_zero_case(rng: &mut Rng) -> Case {
+    let zeros = [Val::Flt(0), Val::NZero, Val::Flt(0), Val::NZero, Val::Int(0), Val::NaN];
+    let others = [Val::Int(7), Val::Flt(3), Val::Str(b"a".to_vec()), Val::Int(-1), Val::Null];
+    let mut ops: Vec<HOp> = vec![];
+    let mut live: Vec<(u64, Vec<u8>)> = vec![];
+    let mut next_h = 1u64;
+    let n_nodes = 1 + rng.usize(3);
+    for _ in 0..n_nodes {
+        let l = if rng.chance(3, 4) { 1u8 } else { 2u8 };
+        let props = if rng.chance(3, 4) { vec![(1u8, zeros[rng.usize(zeros.len())].clone())] } else { vec![] };
+        ops.push(HOp::Create { h: next_h, labels: vec![l], props });
+        live.push((next_h, vec![l]));
+        next_h += 1;
+    }
+    let steps = 3 + rng.usize(7);
+    let mut last: BTreeMap<u64, Val> = BTreeMap::new();
+    for _ in 0..steps {
+        if live.is_empty() {
+            break;
+        }
+        let (h, _) = live[rng.usize(live.len())].clone();
+        let r = rng.usize(100);
+        if r < 45 {
+            // a zero of either sign, or the very value written last
+            let v = match (rng.usize(4), last.get(&h)) {
+                (0, Some(v)) => v.clone(),
+                _ => zeros[rng.usize(zeros.len())].clone(),
+            };
+            last.insert(h, v.clone());
+            ops.push(HOp::Set { h, key: 1, v, merge_form: rng.chance(1, 5) });
+        } else if r < 65 {
+            let v = others[rng.usize(others.len())].clone();
+            last.insert(h, v.clone());
+            ops.push(HOp::Set { h, key: 1, v, merge_form: false });
+        } else if r < 73 {
+            ops.push(HOp::Remove { h, key: 1 });
+        } else if r < 80 {
+            let l = 1 + rng.usize(2) as u8;
+            ops.push(HOp::RemoveLabel { h, l });
+        } else if r < 85 {
+            ops.push(HOp::AddLabel { h, l: 1 + rng.usize(2) as u8 });
+        } else {
+            // delete, and let a node of (usually) another label take the id with a numeric zero
+            live.retain(|(x, _)| *x != h);
+            ops.push(HOp::Delete { h });
+            let l = if rng.chance(2, 3) { 3u8 } else { 1 + rng.usize(2) as u8 };
+            let v = [Val::Flt(0), Val::Int(0), Val::NZero, Val::Int(7)][rng.usize(4)].clone();
+            ops.push(HOp::Create { h: next_h, labels: vec![l], props: vec![(1, v)] });
+            live.push((next_h, vec![l]));
+            next_h += 1;
+        }
+    }
+    let mut queries = vec![];
+    let probes: [(&'static str, Val); 8] = [
+        ("eq", Val::Int(0)), ("eq", Val::Flt(0)), ("ge", Val::Int(0)), ("lt", Val::Int(100)),
+        ("le", Val::Int(0)), ("ge", Val::Flt(0)), ("eq", Val::NZero), ("gt", Val::Int(-1)),
+    ];
+    for _ in 0..7 {
+        let (op, v) = probes[rng.usize(probes.len())].clone();
+        let label = if rng.chance(3, 4) { 1 } else { 2 };
+        let ret = match rng.usize(3) {
+            0 => None,
+            1 => Some(1),
+            _ => Some(0),
+        };
+        let form = ["plain", "plain", "with", "flip", "inline"][rng.usize(5)];
+        queries.push(Query { label, preds: vec![Pred::Cmp { key: 1, op, v }], ret, hop: None, form, raw: None });
+    }
+    let partial: Vec<(u8, u8)> = vec![(1, 1)];
+    Case { ix_mid: rng.usize(ops.len() + 1), cp_mid: Some(rng.usize(ops.len() + 1)), ops, queries, partial }
 }
 
 fn gen_case(rng: &mut Rng, big: bool) -> Case {
@@ -991,6 +1095,7 @@ fn gen_case(rng: &mut Rng, big: bool) -> Case {
         Val::Int(1), Val::Int(1), Val::Int(0), Val::Int(2), Val::Flt(2), Val::Flt(2), Val::Flt(1), Val::Flt(4), Val::Flt(3),
         Val::Str(b"a".to_vec()), Val::Str(b"true".to_vec()), Val::Str(b"b".to_vec()), Val::Str(b"FALSE".to_vec()),
         Val::Bool(true), Val::Bool(false), Val::Lst(vec![1]), Val::Null, Val::Int(-1), Val::Flt(-2),
+        Val::Int(0), Val::Flt(0), Val::Flt(0), Val::Int(100), Val::NZero,
     ];
     let cmp_ops = ["eq", "eq", "lt", "le", "gt", "ge"];
     let mut queries = vec![];
@@ -1167,7 +1272,7 @@ fn main() {
         "C02",
         "random write histories (create/set incl. type changes/remove/delete with id reuse/label add+remove/relationships) x read queries \
          (single-label MATCH, 0-2 comparison or IN predicates, optional one-hop in either direction, typed or untyped, to a labelled or unlabelled node, RETURN n.k | count | n.h,m.h; plain/flipped/reversed/inline/WITH forms); \
-         a quarter of the cases are relationship-heavy (parallel and multi-type relationships between one pair, self-loops, compaction, then deletes of frozen relationships and DETACH DELETEs interleaved with creates that reuse the freed ids), \
+         a fifth of the cases rewrite an indexed key with ==-equal values of a different index key (0.0, -0.0, 0) or NaN and then SET/REMOVE/unlabel/DELETE+reuse; a quarter of the cases are relationship-heavy (parallel and multi-type relationships between one pair, self-loops, compaction, then deletes of frozen relationships and DETACH DELETEs interleaved with creates that reuse the freed ids), \
          each replayed into 5 index placements x up to 3 compaction placements and run under 2 planners x 2 parallel-filter settings, in two processes; \
          non-trivial = a live node carries a queried label, some plan has an operator beyond scan/project, and the configurations produced >= 2 plan shapes; \
          distinct = distinct rendered case",
@@ -1201,7 +1306,7 @@ fn main() {
     if args.replay.is_none() {
         // `Rng::new(s)` and `Rng::new(s + 1)` are the same stream one step apart; spread the seeds
         let mut rng = Rng::new(args.seed.wrapping_mul(0xD6E8_FEB8_6659_FD93).rotate_left(23) ^ 0xC02);
-        let (n_rand, n_edge, n_big) = if args.thorough() { (4500, 1500, 24) } else { (380, 150, 4) };
+        let (n_rand, n_edge, n_zero, n_big) = if args.thorough() { (3800, 1300, 1000, 24) } else { (330, 130, 110, 4) };
         for _ in 0..n_rand {
             let mut r = rng.fork();
             cases.push(gen_case(&mut r, false));
@@ -1211,6 +1316,11 @@ fn main() {
             cases.push(gen_edge_case(&mut r));
         }
         rep.count_n("edge_heavy_cases", n_edge as u64);
+        for _ in 0..n_zero {
+            let mut r = rng.fork();
+            cases.push(gen_zero_case(&mut r));
+        }
+        rep.count_n("equal_value_rewrite_cases", n_zero as u64);
         for _ in 0..n_big {
             let mut r = rng.fork();
             cases.push(gen_case(&mut r, true));
